@@ -6,7 +6,7 @@
     hcount, charge and equal bond maps;  [amap_id] = atom_map is the node id;  orders are half-units. *)
 From Coq Require Import List NArith ZArith Bool.
 From SK Require Import lib.LGraph lib.C01_GraphLemmas model.C01_Model model.C02_Model model.C01_Opts model.C01_String model.C01_Renum
-  proof.C01_Proof proof.C01_OptsProof proof.C01_StringProof proof.C01_StringHyd proof.C01_StringPipe proof.C01_StringEH proof.C01_StringRenum proof.C01_StringHydExt proof.C01_RenumCentre proof.C01_RenumWrite.
+  proof.C01_Proof proof.C01_OptsProof proof.C01_StringProof proof.C01_StringHyd proof.C01_StringPipe proof.C01_StringEH proof.C01_StringRenum proof.C01_StringHydExt proof.C01_RenumCentre proof.C01_RenumWrite proof.C01_StringEHwf.
 Import ListNotations.
 Local Open Scope Z_scope.
 
@@ -343,3 +343,10 @@ Theorem C01_its_to_graphs_renumber : forall f : N -> N, (forall a b, f a = f b -
   (forall u v, adj (snd B) (f u) (f v) = adj (snd A) u v).
 Proof. exact its_to_graphs_renumber. Qed.
 Print Assumptions C01_its_to_graphs_renumber.
+
+(** 23. the explicit-hydrogen ITS of a well-formed ITS is well formed (distinct ids: the invented ids are fresh and
+        pairwise different; one entry per bond; every bond joins two different present atoms), so theorems 14 and 22
+        and the C02 theorems apply to what rsmi_to_its(explicit_hydrogen=True) returns *)
+Theorem C01_h_to_explicit_wf : forall I : its, wf I -> wf (fst (h_to_explicit_its I)).
+Proof. exact h_to_explicit_its_wf. Qed.
+Print Assumptions C01_h_to_explicit_wf.
